@@ -48,7 +48,7 @@ def gen_chart(rp, dm=None, features=None, max_states=10):
         features["small_alphabet"] = True
     g = gen.Gen(rp, dm, max_states=max_states, features=features)
     root = g.build()
-    root.meta = dict(root.meta or {}, par_bias=bool(features.get("par_bias") or features.get("hist_bias")))
+    root.meta = dict(root.meta or {}, par_bias=bool(features.get("par_bias") or features.get("hist_bias")), completable=bool(getattr(g, "completable", False)))
     return root
 
 
@@ -64,7 +64,7 @@ def history_ops(rp, i=0, many=None):
             ops.append({"op": "sleep", "ms": rp.choice([1, 2, 5, 10, 11, 30])})
             ops.append({"op": "run", "i": i, "block": 0, "until": ["IDLE"], "max": 120})
         else:
-            ops.append({"op": "recv", "i": i, "name": rp.choice(gen.EXT_EVENTS + ["a", "b", "zz"]) if not many else rp.choice(["a", "b", "a", "b", "a.x"])})
+            ops.append({"op": "recv", "i": i, "name": rp.choice(gen.EXT_EVENTS + ["a", "b", "zz"]) if not many else rp.choice(["a", "b", "a", "b", "a.x", "c"])})
             if rp.random() < 0.7:
                 ops.append({"op": "run", "i": i, "block": 0, "until": ["IDLE"], "max": 120})
     ops.append({"op": "sleep", "ms": 60})
